@@ -430,8 +430,11 @@ func (t *tr) expr(e ast.Expr) string {
 
 func (t *tr) line(ind int, s string) { t.out.WriteString(strings.Repeat("  ", ind) + s + "\n") }
 
+// unitVars: package-level variables initialised with the empty struct value `struct{}{}`
+var unitVars = map[string]bool{}
+
 func isSetVal(e ast.Expr) bool {
-	if id, ok := e.(*ast.Ident); ok && id.Name == "setVal" {
+	if id, ok := e.(*ast.Ident); ok && unitVars[id.Name] {
 		return true
 	}
 	if cl, ok := e.(*ast.CompositeLit); ok && len(cl.Elts) == 0 {
@@ -805,6 +808,15 @@ func main() {
 	t := &tr{sp: sp, fns: map[string]*fnInfo{}, out: &strings.Builder{}}
 	decls := map[string]*ast.FuncDecl{}
 	for _, d := range file.Decls {
+		if gd, ok := d.(*ast.GenDecl); ok && gd.Tok == token.VAR {
+			for _, sp := range gd.Specs {
+				if vs, ok := sp.(*ast.ValueSpec); ok && len(vs.Names) == 1 && len(vs.Values) == 1 && isSetVal(vs.Values[0]) {
+					unitVars[vs.Names[0].Name] = true
+				}
+			}
+		}
+	}
+	for _, d := range file.Decls {
 		fd, ok := d.(*ast.FuncDecl)
 		if !ok || fd.Body == nil {
 			continue
@@ -916,7 +928,7 @@ func main() {
 			ret = t.leanType(f.recvKind) + " × " + ret
 		}
 		sig += " : Go.M (" + ret + ") := do"
-		fmt.Fprintf(&b, "/-- `%s` (%s) -/\n%s\n", src(&ast.FuncDecl{Recv: f.decl.Recv, Name: f.decl.Name, Type: f.decl.Type}), at(f.decl), sig)
+		fmt.Fprintf(&b, "/-- `%s` -/\n%s\n", src(&ast.FuncDecl{Recv: f.decl.Recv, Name: f.decl.Name, Type: f.decl.Type}), sig)
 		for _, m := range muts {
 			t.line(1, "let mut "+name(m)+" := "+name(m))
 		}
